@@ -75,7 +75,7 @@ def run(tier: str, seed: int) -> int:
     chk.assumptions = ["equality is demanded where the total_bounds extents are powers of two (the code's scaling is exact there); elsewhere only "
                        "range and independence are decided", "conversion of int64 distances to base-4 digit sequences in the harness"]
     r = run_tlc("MC_HilbertDist", cfg=dict(constants=dict(PMax=6 if tier == "quick" else 8, CMax=4),
-                                           invariants=["BitsAgree", "Monotone", "Clamps", "InGrid"]), workers=8, timeout=1200)
+                                           invariants=["BitsAgree", "Monotone", "Clamps", "InGrid"]), workers=8, timeout=3000)
     chk.add_tlc(r)
     if r.violated:
         chk.violation("spec", "MC_HilbertDist: the specification of the cell is inconsistent: " + str(r.violated), "", ctx=dict(site="spec"))
